@@ -204,7 +204,7 @@ func main() {
 			}
 			for s := 0; s < shards; s++ {
 				jobs = append(jobs, &job{bin: bin, name: fmt.Sprintf("%s[b%d,f%d,%d/%d]", it.Name, lvl, free, s, shards),
-					args: []string{"-prop", prop, "-scenario", it.Name, "-bound", fmt.Sprint(lvl), "-fbound", fmt.Sprint(free),
+					args: []string{"-prop", prop, "-scenario", it.Name, "-tier", *tier, "-bound", fmt.Sprint(lvl), "-fbound", fmt.Sprint(free),
 						"-shard", fmt.Sprint(s), "-nshards", fmt.Sprint(shards)}})
 			}
 		} else {
@@ -603,7 +603,25 @@ func aggregate(prop string, pi *propInfo, tier string, seed int, jobs []*job, fi
 			ev.lines = append(ev.lines, fmt.Sprintf("  %s", firstLine(v.Msg, 400)))
 		}
 	}
-	var kf []string
+	// counters that scenarios report through their observation strings
+	// (explicit-state searches and bulk enumerations inside one execution)
+	ctrRe := regexp.MustCompile(`(states|transitions|configurations|maxdepth)=(\d+)`)
+	ctr := map[string]int64{}
+	for _, sc := range scens {
+		for o := range sc.Outcomes {
+			for _, m := range ctrRe.FindAllStringSubmatch(o, -1) {
+				v, _ := strconv.ParseInt(m[2], 10, 64)
+				if m[1] == "maxdepth" {
+					if v > ctr[m[1]] {
+						ctr[m[1]] = v
+					}
+				} else {
+					ctr[m[1]] += v
+				}
+			}
+		}
+	}
+	kf := []string{}
 	for _, f := range findings {
 		if f.Property == prop && f.Status == "open" && knownHit[f.Key] > 0 {
 			ev.lines = append([]string{fmt.Sprintf("KNOWN-FINDING: property=%s %s", prop, f.WhatFails)}, ev.lines...)
@@ -629,6 +647,19 @@ func aggregate(prop string, pi *propInfo, tier string, seed int, jobs []*job, fi
 	if len(extra) > 0 {
 		cov["extra"] = extra
 	}
+	if len(ctr) > 0 {
+		cov["search_states"] = ctr["states"]
+		cov["search_transitions"] = ctr["transitions"]
+		cov["search_max_depth"] = ctr["maxdepth"]
+		cov["configurations_enumerated"] = ctr["configurations"]
+	}
+	if caps == nil {
+		caps = []string{}
+	}
+	if races == nil {
+		races = []string{}
+	}
+	cov["caps_hit"] = caps
 	if pi.engine == "A" {
 		cov["states"] = statesN
 		cov["transitions"] = trans
